@@ -1,5 +1,6 @@
 import PyresampleModel.Model.C02
 import PyresampleModel.Proofs.Compact
+import Mathlib.Tactic.Linarith
 
 /-
   C02 — property theorems for nearest-neighbour resampling.
@@ -83,6 +84,196 @@ theorem validCoord_iff (lon lat : Option Rat) :
 theorem pipelineNN_length {α} (srcValid : List Bool) (data : List α) (tgtValid : List Bool) (q : List Nat) (fill : α) :
     (pipelineNN srcValid data tgtValid q fill).length = tgtValid.length := by
   simp [pipelineNN, scatter_length]
+
+/-! ### the kd-tree contract is met by brute force -/
+
+def okS (srcValid : List Bool) (d : Nat → Rat) (r2 : Rat) (s : Nat) : Prop := srcValid.getD s false = true ∧ d s ≤ r2
+
+def stepNV (srcValid : List Bool) (d : Nat → Rat) (r2 : Rat) (best : Option Nat) (s : Nat) : Option Nat :=
+  if srcValid.getD s false && decide (d s ≤ r2) then
+    match best with
+    | none => some s
+    | some b => if d s < d b then some s else some b
+  else best
+
+theorem nearestValid_eq (srcValid : List Bool) (d : Nat → Rat) (r2 : Rat) :
+    nearestValid srcValid d r2 = (List.range srcValid.length).foldl (stepNV srcValid d r2) none := rfl
+
+theorem aux_fold (srcValid : List Bool) (d : Nat → Rat) (r2 : Rat) : ∀ (l : List Nat) (best : Option Nat),
+    (l.foldl (stepNV srcValid d r2) best = none → best = none ∧ ∀ s ∈ l, ¬ okS srcValid d r2 s) ∧
+    (∀ r, l.foldl (stepNV srcValid d r2) best = some r →
+      (best = some r ∨ (r ∈ l ∧ okS srcValid d r2 r)) ∧ (∀ b, best = some b → d r ≤ d b) ∧
+      ∀ s ∈ l, okS srcValid d r2 s → d r ≤ d s) := by
+  intro l
+  induction l with
+  | nil =>
+    intro best
+    refine ⟨fun h => ⟨h, by simp⟩, fun r h => ⟨Or.inl h, ?_, by simp⟩⟩
+    intro b hb; simp at h; rw [h] at hb; injection hb with hb; rw [hb]
+  | cons x xs ih =>
+    intro best
+    simp only [List.foldl_cons]
+    obtain ⟨ihN, ihS⟩ := ih (stepNV srcValid d r2 best x)
+    by_cases hok : okS srcValid d r2 x
+    · have hcond : (srcValid.getD x false && decide (d x ≤ r2)) = true := by
+        have h1 : srcValid.getD x false = true := hok.1
+        have h2 := hok.2
+        rw [h1]; simpa using h2
+      constructor
+      · intro h
+        obtain ⟨h1, _⟩ := ihN h
+        exfalso
+        unfold stepNV at h1
+        rw [hcond] at h1
+        cases best with
+        | none => simp at h1
+        | some b => simp only [if_true] at h1; split at h1 <;> simp at h1
+      · intro r h
+        obtain ⟨h1, h2, h3⟩ := ihS r h
+        cases best with
+        | none =>
+          have hs : stepNV srcValid d r2 none x = some x := by unfold stepNV; rw [hcond]; rfl
+          rw [hs] at h1 h2
+          have hrx : d r ≤ d x := h2 x rfl
+          refine ⟨?_, ?_, ?_⟩
+          · right
+            rcases h1 with h1 | h1
+            · injection h1 with h1; rw [← h1]; exact ⟨List.mem_cons_self, hok⟩
+            · exact ⟨List.mem_cons_of_mem _ h1.1, h1.2⟩
+          · intro b hb; cases hb
+          · intro s hs' hoks
+            rcases List.mem_cons.mp hs' with rfl | hs'
+            · exact hrx
+            · exact h3 s hs' hoks
+        | some b =>
+          by_cases hlt : d x < d b
+          · have hs : stepNV srcValid d r2 (some b) x = some x := by
+              unfold stepNV; rw [hcond]; simp [hlt]
+            rw [hs] at h1 h2
+            have hrx : d r ≤ d x := h2 x rfl
+            refine ⟨?_, ?_, ?_⟩
+            · right
+              rcases h1 with h1 | h1
+              · injection h1 with h1; rw [← h1]; exact ⟨List.mem_cons_self, hok⟩
+              · exact ⟨List.mem_cons_of_mem _ h1.1, h1.2⟩
+            · intro b' hb'; injection hb' with hb'; rw [← hb']; linarith
+            · intro s hs' hoks
+              rcases List.mem_cons.mp hs' with rfl | hs'
+              · exact hrx
+              · exact h3 s hs' hoks
+          · have hs : stepNV srcValid d r2 (some b) x = some b := by
+              unfold stepNV; rw [hcond]; simp [hlt]
+            rw [hs] at h1 h2
+            have hrb : d r ≤ d b := h2 b rfl
+            refine ⟨?_, ?_, ?_⟩
+            · rcases h1 with h1 | h1
+              · left; exact h1
+              · right; exact ⟨List.mem_cons_of_mem _ h1.1, h1.2⟩
+            · intro b' hb'; injection hb' with hb'; rw [← hb']; exact hrb
+            · intro s hs' hoks
+              rcases List.mem_cons.mp hs' with rfl | hs'
+              · have : d b ≤ d s := not_lt.mp hlt
+                linarith
+              · exact h3 s hs' hoks
+    · have hcond : (srcValid.getD x false && decide (d x ≤ r2)) = false := by
+        unfold okS at hok
+        by_cases hv : srcValid.getD x false = true
+        · have : ¬ d x ≤ r2 := fun h => hok ⟨hv, h⟩
+          rw [Bool.and_eq_false_iff]; right; exact decide_eq_false this
+        · rw [Bool.and_eq_false_iff]; left; exact Bool.eq_false_iff.mpr hv
+      have hs : stepNV srcValid d r2 best x = best := by unfold stepNV; rw [hcond]; rfl
+      rw [hs] at ihN ihS
+      constructor
+      · intro h
+        rw [hs] at h
+        obtain ⟨h1, h2⟩ := ihN h
+        refine ⟨h1, ?_⟩
+        intro s hs'
+        rcases List.mem_cons.mp hs' with rfl | hs'
+        · exact hok
+        · exact h2 s hs'
+      · intro r h
+        rw [hs] at h
+        obtain ⟨h1, h2, h3⟩ := ihS r h
+        refine ⟨?_, h2, ?_⟩
+        · rcases h1 with h1 | h1
+          · left; exact h1
+          · right; exact ⟨List.mem_cons_of_mem _ h1.1, h1.2⟩
+        · intro s hs' hoks
+          rcases List.mem_cons.mp hs' with rfl | hs'
+          · exact absurd hoks hok
+          · exact h3 s hs' hoks
+/-- a kd-tree stand-in: the compacted position of the first nearest valid source within the radius, or the sentinel -/
+def bruteQuery (srcValid : List Bool) (d2 : Nat → Nat → Rat) (r2 : Rat) (j : Nat) : Nat :=
+  match nearestValid srcValid (fun s => d2 s j) r2 with
+  | none => srcValid.count true
+  | some s => rank srcValid s
+
+theorem aux_getD_iff (l : List Bool) (s : Nat) : l.getD s false = true ↔ l[s]? = some true := by
+  rw [List.getD_eq_getElem?_getD]
+  cases h : l[s]? with
+  | none => simp
+  | some b => cases b <;> simp
+
+theorem aux_valid_lt (l : List Bool) (s : Nat) (h : l[s]? = some true) : s < l.length := by
+  by_contra hn
+  rw [List.getElem?_eq_none (by omega)] at h
+  cases h
+
+theorem brute_query_ok (srcValid : List Bool) (d2 : Nat → Nat → Rat) (r2 : Rat) (j : Nat) :
+    QueryOK srcValid d2 r2 j (bruteQuery srcValid d2 r2 j) := by
+  unfold bruteQuery
+  have hf := aux_fold srcValid (fun s => d2 s j) r2 (List.range srcValid.length) none
+  rw [← nearestValid_eq] at hf
+  obtain ⟨hN, hS⟩ := hf
+  cases hres : nearestValid srcValid (fun s => d2 s j) r2 with
+  | none =>
+    left
+    refine ⟨rfl, ?_⟩
+    intro s hs hle
+    have hlt := aux_valid_lt srcValid s hs
+    exact (hN hres).2 s (List.mem_range.mpr hlt) ⟨(aux_getD_iff srcValid s).mpr hs, hle⟩
+  | some r =>
+    right
+    obtain ⟨h1, _, h3⟩ := hS r hres
+    rcases h1 with h1 | ⟨_, hok⟩
+    · cases h1
+    · refine ⟨r, (aux_getD_iff srcValid r).mp hok.1, rfl, hok.2, ?_⟩
+      intro s' hs'
+      have hlt := aux_valid_lt srcValid s' hs'
+      by_cases hle : d2 s' j ≤ r2
+      · exact h3 s' (List.mem_range.mpr hlt) ⟨(aux_getD_iff srcValid s').mpr hs', hle⟩
+      · have : r2 < d2 s' j := not_le.mp hle
+        have := hok.2
+        simp only at this
+        linarith
+
+/-- **the contract is satisfiable, and with it the whole pipeline is the specification**: when the query answers are those of the
+brute-force search (`bruteQuery`, which meets `QueryOK` by `brute_query_ok`), the output of the nearest-neighbour pipeline is, for
+every source/target size, validity pattern, data column and radius, the fill value at invalid targets and where no valid source
+is within the radius, and otherwise the value of a nearest valid source within the radius - with no hypothesis left -/
+theorem nn_bruteforce_spec {α} (srcValid : List Bool) (data : List α) (tgtValid : List Bool)
+    (fill : α) (d2 : Nat → Nat → Rat) (r2 : Rat) (hlen : data.length = srcValid.length)
+    (j : Nat) (hj : j < tgtValid.length) :
+    let q := compact ((List.range tgtValid.length).map (bruteQuery srcValid d2 r2)) tgtValid
+    (tgtValid[j]? = some false → (pipelineNN srcValid data tgtValid q fill)[j]? = some fill) ∧
+    (tgtValid[j]? = some true →
+      ((∀ s, srcValid[s]? = some true → ¬ d2 s j ≤ r2) →
+        (pipelineNN srcValid data tgtValid q fill)[j]? = some fill) ∧
+      ((∃ s, srcValid[s]? = some true ∧ d2 s j ≤ r2) →
+        ∃ s, srcValid[s]? = some true ∧ d2 s j ≤ r2 ∧ (∀ s', srcValid[s']? = some true → d2 s j ≤ d2 s' j) ∧
+          (pipelineNN srcValid data tgtValid q fill)[j]? = data[s]?)) := by
+  intro q
+  have hml : ((List.range tgtValid.length).map (bruteQuery srcValid d2 r2)).length = tgtValid.length := by simp
+  have hq : q.length = tgtValid.count true := compact_length _ _ hml
+  apply nn_pipeline_correct srcValid data tgtValid q fill d2 r2 hlen hq _ j hj
+  intro j' hv idx hidx
+  have hlt := aux_valid_lt tgtValid j' hv
+  have := compact_get_rank ((List.range tgtValid.length).map (bruteQuery srcValid d2 r2)) tgtValid j' hml hv
+  rw [this] at hidx
+  simp [hlt] at hidx
+  rw [← hidx]
+  exact brute_query_ok srcValid d2 r2 j'
 
 /-! non-vacuity: 3 sources (middle one invalid), 3 targets (last invalid); query answers satisfy QueryOK -/
 example : pipelineNN [true, false, true] [10, 20, 30] [true, true, false] [1, 2] (-1) = [30, -1, -1] := by decide
